@@ -53,16 +53,28 @@ enum NodeErr {
 }
 
 impl<S: SeqSpec> Seq<S> {
-    fn visit(&self, scratch: &Path, prefix: &[S::Op], want_ops: bool) -> Result<(u64, Vec<S::Op>), NodeErr> {
+    /// `observe_all = false`: the prefix is applied and the observers run once, in the state it leads to (every shorter prefix
+    /// was observed by its own visit).  `observe_all = true`: the observers also run before the first and after EVERY operation,
+    /// as a caller who reads between writes does — reads are not always read-only (caches, recency lists, lazily built views),
+    /// so "write, read, write, read" is a different history from "write, write, read".
+    fn visit(&self, scratch: &Path, prefix: &[S::Op], want_ops: bool, observe_all: bool) -> Result<(u64, Vec<S::Op>), NodeErr> {
         let spec = &self.0;
         let r = catch(|| -> Result<(u64, Vec<S::Op>), NodeErr> {
             let mut st = spec.init(scratch).map_err(NodeErr::Nondet)?;
             let n = prefix.len();
+            if observe_all {
+                let mut h0 = DefaultHasher::new();
+                spec.observe(&mut st, &mut h0).map_err(NodeErr::Fail)?;
+            }
             for (i, op) in prefix.iter().enumerate() {
-                if i + 1 < n {
+                if i + 1 < n && !observe_all {
                     spec.apply(&mut st, op).map_err(NodeErr::Nondet)?;
                 } else {
                     spec.apply(&mut st, op).map_err(NodeErr::Fail)?;
+                }
+                if observe_all && i + 1 < n {
+                    let mut hi = DefaultHasher::new();
+                    spec.observe(&mut st, &mut hi).map_err(NodeErr::Fail)?;
                 }
             }
             let mut h = DefaultHasher::new();
@@ -79,6 +91,10 @@ impl<S: SeqSpec> Seq<S> {
 
     fn witness(prefix: &[S::Op]) -> Value {
         json!({ "ops": prefix.iter().map(|o| format!("{:?}", o)).collect::<Vec<_>>() })
+    }
+    /// witness of a history that fails only when the observers run between the operations
+    fn witness_reads(prefix: &[S::Op]) -> Value {
+        json!({ "ops": prefix.iter().map(|o| format!("{:?}", o)).collect::<Vec<_>>(), "reads_between": true })
     }
 }
 
@@ -97,7 +113,7 @@ impl<S: SeqSpec> Subject for Seq<S> {
         let owns_root = ctx.take_unit();
 
         // root
-        let root_ops = match self.visit(&scratch, &[], depth > 0) {
+        let root_ops = match self.visit(&scratch, &[], depth > 0, false) {
             Ok((h, ops)) => {
                 if owns_root {
                     ctx.stats(&name).executions += 1;
@@ -131,10 +147,24 @@ impl<S: SeqSpec> Subject for Seq<S> {
                     return;
                 }
                 ctx.journal(&name, &|| Self::witness(&prefix));
-                let r = self.visit(&scratch, &prefix, level < depth);
+                let r = self.visit(&scratch, &prefix, level < depth, false);
                 let st = ctx.stats(&name);
                 st.executions += 1;
                 st.transitions += prefix.len() as u64;
+                // the same history once more with the observers running between the operations (only where the plain visit
+                // passed: a failing node is reported as it is)
+                if r.is_ok() && std::env::var_os("ZV_NO_READS_BETWEEN").is_none() {
+                    let st = ctx.stats(&name);
+                    st.executions += 1;
+                    st.transitions += prefix.len() as u64;
+                    if let Err(NodeErr::Fail(f)) | Err(NodeErr::Nondet(f)) = self.visit(&scratch, &prefix, false, true) {
+                        let f = Fail { clause: f.clause.clone(), class: if f.class.is_empty() { "reads_between".to_string() } else { format!("{}|reads_between", f.class) }, detail: format!("(observers run between the operations) {}", f.detail) };
+                        *ctx.stats(&name).outcomes.entry(format!("fail:{}:reads_between", f.clause)).or_insert(0) += 1;
+                        ctx.violation(&name, &f, Self::witness_reads(&prefix));
+                        // not extended: longer histories would only repeat it
+                        continue;
+                    }
+                }
                 match r {
                     Ok((h, ops)) => {
                         ctx.add_state(&name, h);
@@ -170,8 +200,33 @@ impl<S: SeqSpec> Subject for Seq<S> {
             return Verdict::Unreplayable("witness has no ops".into());
         };
         let want: Vec<String> = ops.iter().map(|o| o.as_str().unwrap_or("").to_string()).collect();
+        // witnesses found by the plain visit carry no flag: they are replayed without reads in between first (exactly as
+        // found) and, if that passes, with the observers after every step (how witnesses recorded before the flag existed
+        // were replayed); a witness flagged `reads_between` is replayed with them
+        let flagged = witness.get("reads_between").and_then(|b| b.as_bool()).unwrap_or(false);
         let spec = &self.0;
         let scratch = ctx.scratch.clone();
+        if !flagged {
+            let plain = catch(|| -> Result<Option<Verdict>, Fail> {
+                let mut st = spec.init(&scratch)?;
+                for w in &want {
+                    let enabled = spec.ops(&st);
+                    let Some(op) = enabled.iter().find(|o| &format!("{:?}", o) == w) else {
+                        return Ok(Some(Verdict::Unreplayable(format!("operation {w} not enabled"))));
+                    };
+                    spec.apply(&mut st, op)?;
+                }
+                let mut h = DefaultHasher::new();
+                spec.observe(&mut st, &mut h)?;
+                spec.finish(st)?;
+                Ok(None)
+            });
+            match plain {
+                Ok(Ok(Some(v))) => return v,
+                Ok(Ok(None)) => {}
+                Ok(Err(f)) | Err(f) => return Verdict::Fail(f),
+            }
+        }
         let r = catch(|| -> Result<Verdict, Fail> {
             let mut st = spec.init(&scratch)?;
             let mut h = DefaultHasher::new();
